@@ -214,6 +214,8 @@ class YncaConnection:
         self._readerthread: Optional[serial.threaded.ReaderThread] = None
         self._protocol: Optional[YncaProtocol] = None
 
+        self._closed = False
+
         self._message_callbacks: Set[
             Callable[[YncaProtocolStatus, str | None, str | None, str | None], None]
         ] = set()
@@ -252,13 +254,21 @@ class YncaConnection:
         disconnect_callback: Callable[[], None] | None = None,
         communication_log_size: int = 0,
     ):
+        self._closed = False
+
+        def _disconnected():
+            # A planned close() is not a disconnect, also not when the close() came
+            # before the protocol instance existed (while still connecting)
+            if not self._closed and disconnect_callback is not None:
+                disconnect_callback()
+
         try:
             self._serial = serial.serial_for_url(self._port)
             self._readerthread = serial.threaded.ReaderThread(
                 self._serial,
                 lambda: YncaProtocol(
                     self._call_registered_message_callbacks,
-                    disconnect_callback,
+                    _disconnected if disconnect_callback is not None else None,
                     communication_log_size,
                 ),
             )
@@ -273,6 +283,7 @@ class YncaConnection:
     def close(self):
         # Disconnect callback is for unexpected disconnects
         # Don't need it to be called on planned `close()`
+        self._closed = True
         protocol = self._protocol
         if protocol is None and self._readerthread:
             # connect() is still in progress (e.g. close() from a callback on an early message)
